@@ -6,7 +6,7 @@ Ghost air log (spec/net_state.py ref_send_net): air_n = number of frames handed 
 air_last / air_first = their bytes, air_addr = the TX address, air_aa = EN_AA bit 0 in force."""
 from pyvc.cdef import Contract, Lemma, LoopSpec
 from pyvc.schema import Int, Bool, Const, Bytes, ByteArray, Obj, OneOf
-from pyvc.specrt import implies, ite, oracle_int, require, assume
+from pyvc.specrt import implies, ite, oracle_int, require, assume, class_attr, set_class_attr
 from spec.net_ref import valid_node, valid_address, level, level_addr, next_hop, pipe_to, pipe_address
 from spec.net_state import net_schema, net_inv, node_ok, pa, NETPOL
 from spec.c07 import (POL, POL_UPD, home_ok, req_wtp, req_write, req_update, havoc_radio_io, havoc_tx_cfg, havoc_update,
@@ -261,9 +261,21 @@ def ens_multicast(self, old_self, old_message, message_type, level, exc):
     n = len(old_message)
     trunc = n > 24 and not old_self._frag_enabled
     want = ite(trunc, bytes(old_message)[:24], bytes(old_message))
+    # a FRESH header: the next frame id of the process-wide counter (two multicasts of one type must
+    # not repeat (origin, id, type): a receiver that still queues the first discards the second)
+    fresh = (self.m_hid == old_self.g_id0 and self.m_hres == 0
+             and class_attr(HDR, "_RF24NetworkHeader__next_id") == (old_self.g_id0 + 1) % 65536)
     return (n <= old_self.max_message_length and self.m_calls == 1 and self.m_to == level_addr(lv) and self.m_type == 4
             and self.m_hto == 0o100 and self.m_hfrom == old_self._addr and self.m_htype == message_type
-            and self.m_msg == want)
+            and self.m_msg == want and fresh)
+
+
+HDR = "structs:RF24NetworkHeader"
+
+
+def setup_next_id(self):
+    """the frame-id counter of RF24NetworkHeader is an arbitrary 16-bit value"""
+    set_class_attr(HDR, "_RF24NetworkHeader__next_id", self.g_id0)
 
 
 # ------------------------------------------------------------------ RF24Network.write (C05)
@@ -419,8 +431,8 @@ CONTRACTS = [
              loops={(M + "_write", 0): LoopSpec(R + "inv_ack_wait_rec", havoc=[R + "havoc_update_rec"], frame=R + "wait_fixed")},
              props=["C13", "C14", "C05"], replayable=False),
     Contract("C14.multicast", M + "multicast",
-             {"self": rec_schema(), "message": OneOf(Bytes(0, 6000), ByteArray(0, 6000)), "message_type": Int(0, 255), "level": OneOf(Const(None), Int())},
-             requires=[R + "req_multicast"], ensures=[("refines", R + "ens_multicast")], raises=("ValueError",), policy=POL_PUBREC,
+             {"self": rec_schema(extra={"g_id0": Int(0, 0xFFFF)}), "message": OneOf(Bytes(0, 6000), ByteArray(0, 6000)), "message_type": Int(0, 255), "level": OneOf(Const(None), Int())},
+             setup=[R + "setup_next_id"], requires=[R + "req_multicast"], ensures=[("refines", R + "ens_multicast")], raises=("ValueError",), policy=POL_PUBREC,
              props=["C14"], replayable=False),
     Contract("C05.write", "rf24_network:RF24Network.write",
              {"self": rec_schema(), "frame": frame_schema(True, 6000), "traffic_direct": Const(0o70)},
